@@ -952,7 +952,12 @@ var flagsFor = map[string]string{
 }
 
 func (w *worker) explainC11(c *Case, pw, dw string, q query, ordered bool) (string, string, error) {
-	fl := flagsFor[q.op]
+	fl := ""
+	for i := 0; i < len(flagsFor[q.op]); i++ {
+		if pinned(flagsFor[q.op][i]) { // only deviations the current code still has can explain anything
+			fl += string(flagsFor[q.op][i])
+		}
+	}
 	qs := []query{{q.op, q.rep, "-"}, {"get", "any.map", "-"}, {q.op, q.rep, pinnedFlags}, {"get", "any.map", pinnedFlags}}
 	for i := 0; i < len(fl); i++ {
 		qs = append(qs, query{q.op, q.rep, without(fl[i])}, query{"get", "any.map", without(fl[i])})
